@@ -74,6 +74,10 @@ def c14_make_run(s, i):
             parts.append("short=%d" % cfg.choice([50, 300, 700, 950]))
         if "eintr" in kinds:
             parts.append("eintr=%d" % cfg.choice([50, 300, 600]))
+        if cfg.random() < 0.5:
+            # the same on standard error: the trap report must arrive complete as well
+            parts.append("errshort=%d" % cfg.choice([300, 700, 950]))
+            parts.append("erreintr=%d" % cfg.choice([0, 300, 600]))
         io = ",".join(parts)
     elif mode == "fatal":
         total = len(exp["stdout"])
